@@ -769,6 +769,8 @@ func runC12(c *Ctx) {
 	rulePoolCtorShared(c, p, "C12.ctor-shared")
 	ruleNoGlobalToggles(c, p, "C12.global-toggles")
 	ruleHandshakeOwner(c, p, "C12.handshake-owner")
+	ruleNoGlobalBuffers(c, p, "C12.global-buffers")
+	rulePoolPutOnce(c, p, "C12.pool-put-once")
 
 	// ---- C12.globals
 	rule = "C12.globals"
